@@ -186,7 +186,8 @@ class Single(Part):
             "}", 0, site["offset"]) else start
         seg = src[seg_start:site["offset"] + len(want_text)] \
             if seg_start >= 0 else ""
-        if ENT.search(seg) or ";;" in seg:
+        # (an escape in an EARLIER part of the statement moves nothing)
+        if ENT.search(seg) or ";;" in want_text:
             return Mismatch("single:K12", detail)
         if text != want_text:
             return Mismatch("single:expression text differs", detail)
@@ -208,6 +209,11 @@ FAIL_SITES = {
     "content": '<i tal:content="boom(\'{cls}\', \'T\')">{lead}</i>',
     "define2": '{lead}<i tal:define="a 1; b boom(\'{cls}\', \'T\')">x</i>',
     "attr": '{lead}<i title="t ${{boom(\'{cls}\', \'T\')}}">x</i>',
+    # escaped semicolons in earlier parts of the statement
+    "define_esc": '{lead}<i tal:define="a \'x;;y\'; c \';;\'; '
+                  'b boom(\'{cls}\', \'T\')">x</i>',
+    "attributes_esc": '<i tal:attributes="a \'p;;q\'; b boom(\'{cls}\', '
+                      '\'T\')">{lead}</i>',
     "attributes": '<i tal:attributes="a 1;\n  b boom(\'{cls}\', \'T\')">'
                   '{lead}</i>',
     "repeat": '{lead}<i tal:repeat="x boom(\'{cls}\', \'T\')">x</i>',
@@ -510,6 +516,129 @@ class Chain(Part):
         return None
 
 
+CALL_SITES = {
+    "text": "<div>{lead}${{structure: sub({k})}}</div>",
+    "content": '<div tal:content="structure: sub({k})">{lead}</div>',
+    "replace": '{lead}<div tal:replace="structure: sub({k})"/>',
+    "define": '{lead}<div tal:define="a 1; part sub({k})">${{part}}</div>',
+    "attr": '{lead}<div title="${{sub({k})}}">x</div>',
+}
+
+
+class Nested(Part):
+    """A template that renders another template from one of its expressions
+    (each a render() call of its own): the message names the failing
+    expression and then the calling expression of every enclosing template,
+    innermost first - also when somebody on the way up has looked at the
+    exception (logged it, formatted a traceback) before passing it on."""
+    name = "nested"
+    examples = {"quick": 300, "thorough": 8000}
+    floors = {"peek": 0.4}
+
+    def strategy(self, tier):
+        return st.fixed_dictionaries({
+            "depth": st.integers(1, 3),
+            "cls": st.sampled_from([c for c in FAIL_CLASSES if c not in
+                                    NON_EXCEPTION and c != "RecursionError"]),
+            "site": st.sampled_from(sorted(
+                k for k in FAIL_SITES if k != "codeblock")),
+            "calls": st.lists(st.sampled_from(sorted(CALL_SITES)),
+                              min_size=3, max_size=3),
+            "leads": st.lists(st.sampled_from(LEADS), min_size=4,
+                              max_size=4),
+            # who looks at the exception at which level, and how
+            "peek": st.lists(st.sampled_from(
+                [None, None, "str", "repr", "traceback", "args"]),
+                min_size=3, max_size=3),
+            "renders": st.integers(1, 2),
+        })
+
+    def labels(self, case):
+        yield "depth%d" % case["depth"]
+        if any(case["peek"][:case["depth"]]):
+            yield "peek"
+        if any(p in ("str", "traceback")
+               for p in case["peek"][:case["depth"]]):
+            yield "message_built_on_the_way"
+
+    def nontrivial(self, case):
+        return True
+
+    def sources(self, case):
+        d = case["depth"]
+        out = []
+        for k in range(d):
+            out.append(CALL_SITES[case["calls"][k]].format(
+                lead=case["leads"][k], k=k + 1))
+        out.append("<div>" + FAIL_SITES[case["site"]].format(
+            lead=case["leads"][3], cls=case["cls"]) + "</div>")
+        return out
+
+    def sample(self, case):
+        return {"templates": self.sources(case), "peek": case["peek"]}
+
+    def oracle(self, case):
+        import traceback
+        from chameleon import PageTemplate
+        srcs = self.sources(case)
+        o = run(lambda: [PageTemplate(x) for x in srcs])
+        detail = {"templates": srcs, "peek": case["peek"],
+                  "class": case["cls"]}
+        if not o.ok:
+            return Mismatch("nested:does not compile", dict(
+                detail, outcome=o.brief()))
+        ts = o.value
+        log = []
+        rec, boom = exprs.make_callables(log)
+
+        def sub(k):
+            try:
+                return ts[k].render(sub=sub, boom=boom, rec=rec)
+            except Exception as e:
+                how = case["peek"][k - 1]
+                if how == "str":
+                    str(e)
+                elif how == "repr":
+                    repr(e)
+                elif how == "traceback":
+                    traceback.format_exception(type(e), e, e.__traceback__)
+                elif how == "args":
+                    e.args
+                raise
+        want = [(expr_of(case["site"], case["cls"]),
+                 line_col(srcs[-1], srcs[-1].index(
+                     expr_of(case["site"], case["cls"]))))]
+        for k in range(case["depth"] - 1, -1, -1):
+            # (of "structure: sub(1)" the part that failed is named)
+            call = "sub(%d)" % (k + 1)
+            want.append((call, line_col(srcs[k], srcs[k].index(call))))
+        for r in range(case["renders"]):
+            o = run(ts[0].render, sub=sub, boom=boom, rec=rec)
+            if o.ok:
+                return Mismatch("nested:output returned", detail)
+            if not hasattr(o.exc, "_verif_planted"):
+                return Mismatch("nested:raises " + o.exc_name, dict(
+                    detail, outcome=o.brief()))
+            why = class_checks(o.exc, case["cls"])
+            if why:
+                return Mismatch("nested:" + why, detail)
+            try:
+                msg = str(o.exc)
+            except Exception as e:  # noqa: BLE001 - under test
+                return Mismatch("nested:the message cannot be built (%s)"
+                                % type(e).__name__, detail)
+            recs = [(t, (int(l), int(c)))
+                    for t, fn, l, c in REC_RE.findall(msg)]
+            if recs != want:
+                kind = "number of records" if len(recs) != len(want) else \
+                    "records differ"
+                return Mismatch("nested:%s (%s)" % (kind, "first rendering"
+                                if r == 0 else "later rendering"),
+                                dict(detail, records=recs, expected=want,
+                                     message=msg[:1500]))
+        return None
+
+
 CHECK = Check(
     "C12", "fault_enumeration",
     rule=("single: generated templates whose expressions are replaced with "
@@ -518,8 +647,13 @@ CHECK = Check(
           "non-trivial = that site is preceded by a separator, entity or "
           "newline; chain: 8 failure sites x 16 classes x load: chains of "
           "depth 0..3 over files on disk x same-template macro x XML/HTML, "
-          "non-trivial = depth >= 1 or internal macro; distinct by sha1"),
-    parts=[Single(), Chain(), Stable()],
+          "non-trivial = depth >= 1 or internal macro; distinct by sha1; "
+          "nested: 1..3 templates each rendering the next from an "
+          "expression (5 kinds of calling sites), the innermost failing at "
+          "one of the sites, the exception looked at (str / repr / "
+          "traceback / args) or not at each level on its way up, 1..2 "
+          "renderings"),
+    parts=[Single(), Chain(), Stable(), Nested()],
     assumptions=[
         "the expected expression text is the site's source text as written "
         "(stripped); cases where entities or ';;' are written in or before "
